@@ -138,7 +138,11 @@ class TimeMixIn(object):
         :
             new instance of |ASN.1| value
         """
-        text = dt.strftime(cls._yearsDigits == 4 and '%Y%m%d%H%M%S' or '%y%m%d%H%M%S')
+        if cls._yearsDigits == 4:
+            text = '%.4d' % dt.year
+        else:
+            text = '%.2d' % (dt.year % 100)
+        text += '%.2d%.2d%.2d%.2d%.2d' % (dt.month, dt.day, dt.hour, dt.minute, dt.second)
         if cls._hasSubsecond:
             text += '.%d' % (dt.microsecond // 1000)
 
